@@ -43,6 +43,7 @@ def run(ctx):
         reach_rule(ctx, f, g, cfg)
         if cfg == "core-default":
             generators(ctx, f, cfg)
+            premises(ctx, f, cfg)
             # a statistics object is handed to a checker that did not fill it only if the reuse predicate ignores what selects the
             # checker: the hotspot reject checker then retries forever on a value the throttling checker registered (hang)
             from . import rules_C11
@@ -111,6 +112,60 @@ def reach_rule(ctx, f, g, cfg):
                       b.loc(s["bb"]), f.chain(reach, b.path)[-5:], config=cfg)
     ctx.extra.setdefault("panic_sites", {})[cfg] = counts
     ctx.instance("C12.reach/summary", cfg, counts, "undischarged == 0", counts["undischarged"] == 0, cfg)
+
+
+def premises(ctx, f, cfg):
+    """Premises of panic-table rows that are facts about other functions, checked as rule instances of their own (a row is only as good
+    as its premise): P1 the hotspot validity check refuses a QPS rule with duration_in_sec == 0 (divisor of the refill / interval
+    arithmetic); P2 the breaker's bucket-count accessor hands LeapArray::new only geometries it accepts."""
+    from . import decision as D
+    from .decrules import make_classifier
+    from .rules_C19 import _implied_rel, _feasible, _returns_variant
+    # P1
+    bs = [b for b in f.impl_methods("SentinelRule", "is_valid") if "hotspot" in (b.impl_self or "")]
+    if ctx.floor("C12.premise", "hotspot Rule::is_valid", len(bs), 1):
+        b = bs[0]
+        roles = [("duration", ["field:Rule.duration_in_sec"], []), ("metric", ["field:Rule.metric_type"], []), ("QPS", ["variant:MetricType::QPS"], ["field:Rule.metric_type"])]
+        w = D.Walker(f, b, make_classifier(roles), unroll=1)
+        bad = []
+        n_ok = 0
+        for pth in w.walk(0, lambda bb, env: None):
+            if pth["outcome"][0] != "return" or not _feasible(pth) or not _returns_variant(b, pth, "Ok"):
+                continue
+            n_ok += 1
+            rd = _implied_rel(pth["lits"], "duration", "const:0")
+            rm = _implied_rel(pth["lits"], "metric", "QPS")
+            may_zero = rd is None or "=" in rd
+            may_qps = rm is None or "=" in rm
+            if may_zero and may_qps:
+                bad.append({"duration_vs_0": sorted(rd) if rd else "untested", "metric_vs_QPS": sorted(rm) if rm else "untested"})
+        ok = n_ok >= 1 and not bad
+        ctx.instance("C12.premise/hotspot-duration", b.path, {"ok_paths": n_ok, "ok_paths_admitting_qps_with_zero_duration": bad[:2]}, "no Ok path admits metric_type == QPS with duration_in_sec == 0", ok, cfg)
+        if not ok:
+            ctx.violation("C12.premise", "C12.premise|hotspot-duration", "a hotspot QPS rule with duration_in_sec == 0 passes is_valid; the QPS checkers divide by duration_in_sec * 1000 (panic on the first refill)", b.loc(), config=cfg)
+    # P2
+    g = f.one("circuitbreaker::rule::Rule::get_rule_stat_sliding_window_bucket_count")
+    if ctx.floor("C12.premise", "circuitbreaker Rule::get_rule_stat_sliding_window_bucket_count", 1 if g else 0, 1):
+        roles = [("rem", ["op:Rem"], []), ("count", ["field:Rule.stat_sliding_window_bucket_count"], ["op:Rem"])]
+        w = D.Walker(f, g, make_classifier(roles), unroll=1)
+        bad = []
+        n = 0
+        for pth in w.walk(0, lambda bb, env: None):
+            if pth["outcome"][0] != "return" or not _feasible(pth):
+                continue
+            n += 1
+            # does this path return the configured count (not the constant 1)?
+            keeps = not any(st["k"] == "assign" and not st["lhs"]["p"] and st["rv"]["k"] == "use" and st["rv"]["op"].get("k") == "const" and st["rv"]["op"].get("val") == 1 and g.vname(st["lhs"]["l"])
+                            for x in pth["blocks"] for st in g.blocks[x]["stmts"])
+            if keeps:
+                rc = _implied_rel(pth["lits"], "count", "const:0")
+                rr = _implied_rel(pth["lits"], "rem", "const:0")
+                if rc is None or "=" in rc or rr != {"="}:
+                    bad.append({"count_vs_0": sorted(rc) if rc else "untested", "interval%count_vs_0": sorted(rr) if rr else "untested"})
+        ok = n >= 2 and not bad
+        ctx.instance("C12.premise/breaker-buckets", g.path, {"paths": n, "configured_count_returned_unchecked": bad[:2]}, "the configured count is returned only when it is non-zero and divides the interval, otherwise 1", ok, cfg)
+        if not ok:
+            ctx.violation("C12.premise", "C12.premise|breaker-buckets", "the breaker's bucket count can be a value LeapArray::new refuses (the breaker constructors unwrap it): %s" % bad[:1], g.loc(), config=cfg)
 
 
 def generators(ctx, f, cfg):
